@@ -341,6 +341,9 @@ func mkSection(shapeK, partialK int, peek bool) *imap.FetchItemBodySection {
 // ---------- the families ----------
 
 func buildFetchFamilies(thorough bool) {
+	for n := 1; n <= 7; n++ {
+		shapesExactly(n) // fill the memo: generators run concurrently later
+	}
 	flagsBenign := []imap.Flag{imap.FlagSeen, "$Forwarded", "kw"}
 
 	// --- attribute subsets x request kind x flavour x API x item order ---
@@ -348,18 +351,22 @@ func buildFetchFamilies(thorough bool) {
 		type spec struct {
 			mask, bsReq     int
 			uidCmd, collect bool
-			reversed        bool
+			order           int // 0: canonical, 1: reversed, 2..: rotated left by order-1
 		}
 		var specs []spec
 		for bsReq := 0; bsReq < 3; bsReq++ {
 			for _, uidCmd := range []bool{false, true} {
 				for _, collect := range []bool{false, true} {
-					for _, rev := range []bool{false, true} {
+					orders := 2
+					if thorough {
+						orders = 9
+					}
+					for order := 0; order < orders; order++ {
 						for mask := 0; mask < 256; mask++ {
 							if uidCmd && mask&1 == 0 {
 								continue
 							}
-							specs = append(specs, spec{mask, bsReq, uidCmd, collect, rev})
+							specs = append(specs, spec{mask, bsReq, uidCmd, collect, order})
 						}
 					}
 				}
@@ -367,7 +374,7 @@ func buildFetchFamilies(thorough bool) {
 		}
 		get := func(i int) *fetchCase {
 			sp := specs[i]
-			cs := &fetchCase{uidCmd: sp.uidCmd, bsReq: sp.bsReq, collect: sp.collect, label: fmt.Sprintf("attribute mask %08b reversed=%v", sp.mask, sp.reversed)}
+			cs := &fetchCase{uidCmd: sp.uidCmd, bsReq: sp.bsReq, collect: sp.collect, label: fmt.Sprintf("attribute mask %08b item order variant %d", sp.mask, sp.order)}
 			var its []fitem
 			add := func(bit int, it fitem) {
 				if sp.mask&(1<<bit) != 0 {
@@ -385,10 +392,13 @@ func buildFetchFamilies(thorough bool) {
 			add(5, fitem{kind: kSection, sec: mkSection(9, 1, true), pay: payloadSpec{37, 1}})
 			add(6, fitem{kind: kBinary, bin: &imap.FetchItemBinarySection{Part: []int{1, 2}}, pay: payloadSpec{19, 2}})
 			add(7, fitem{kind: kBinSize, bin: &imap.FetchItemBinarySection{Part: []int{1}}, bsize: 42})
-			if sp.reversed {
+			if sp.order == 1 {
 				for a, b := 0, len(its)-1; a < b; a, b = a+1, b-1 {
 					its[a], its[b] = its[b], its[a]
 				}
+			} else if sp.order > 1 && len(its) > 0 {
+				r := (sp.order - 1) % len(its)
+				its = append(append([]fitem{}, its[r:]...), its[:r]...)
 			}
 			if sp.mask&1 != 0 {
 				its = append([]fitem{{kind: kUID}}, its...) // UID first (before any literal)
@@ -505,6 +515,22 @@ func buildFetchFamilies(thorough bool) {
 			for s1 := range litSizes {
 				for s2 := range litSizes {
 					specs = append(specs, spec{[][3]int{{pr[0], pr[1], s1}, {pr[2], pr[3], s2}}, (s1 + s2) % 4, "two sections"})
+				}
+			}
+		}
+		if thorough {
+			small := []int{0, 1, 4} // sizes 0, 1, 4097
+			for a := 0; a < nSectionShapes; a++ {
+				for b := 0; b < nSectionShapes; b++ {
+					for pa := 0; pa < nPartials; pa++ {
+						for pb := 0; pb < nPartials; pb++ {
+							for _, s1 := range small {
+								for _, s2 := range small {
+									specs = append(specs, spec{[][3]int{{a, pa, s1}, {b, pb, s2}}, (a + b + pa + pb) % 4, "two sections (every shape pair)"})
+								}
+							}
+						}
+					}
 				}
 			}
 		}
@@ -639,7 +665,7 @@ func buildFetchFamilies(thorough bool) {
 			return d
 		}
 		var idx []int
-		if thorough {
+		if true { // the full product is cheap enough for both tiers
 			for i := 0; i < total; i++ {
 				idx = append(idx, i)
 			}
@@ -772,8 +798,26 @@ func buildFetchFamilies(thorough bool) {
 		}
 		nPlain := len(shapes) * len(decosPlain)
 		nExt := len(shapes) * len(decosExt)
+		// thorough: one more layer (7 nodes) under a reduced set of decorations
+		var shapes7 []*shape
+		var decos7 []deco
+		if thorough {
+			shapes7 = shapesExactly(7)
+			for _, d := range decosExt {
+				if (d.params+d.disp+d.lang+d.loc)%4 == 0 {
+					decos7 = append(decos7, d)
+				}
+			}
+		}
+		n7 := len(shapes7) * len(decos7)
+		run.Set("bodystructure_trees_7_nodes", len(shapes7))
 		get := func(i int) *fetchCase {
 			c := 0
+			if i >= nPlain+nExt {
+				i -= nPlain + nExt
+				sh, d := shapes7[i/len(decos7)], decos7[i%len(decos7)]
+				return &fetchCase{bsReq: 2, label: fmt.Sprintf("tree %s %s", sh, d), items: []fitem{{kind: kBS, bs: build(sh, d, true, &c)}}}
+			}
 			if i < nPlain {
 				sh, d := shapes[i/len(decosPlain)], decosPlain[i%len(decosPlain)]
 				// the backend may or may not have extension data at hand for a BODY request
@@ -785,7 +829,7 @@ func buildFetchFamilies(thorough bool) {
 		}
 		run.Set("bodystructure_trees", len(shapes))
 		run.Set("bodystructure_max_nodes", maxNodes)
-		regFetch("fetch-bodystructure-trees", nPlain+nExt, 48, get, nil)
+		regFetch("fetch-bodystructure-trees", nPlain+nExt+n7, 48, get, nil)
 	}
 
 	// --- body structures: strings ---
